@@ -101,7 +101,18 @@ def run(prog, rep):
         if not px.postdominates(ub.id, locks[0][0].id) and ub.id != locks[0][0].id:
             okp, msg = False, "a path of the new thread keeps the creation spinlock"
     rep.ob("C05.1", px, "proxy", okp, "the new thread passes the creation spinlock before reading any creator-initialised field" if okp else msg, px.loc[0])
-    rep.floor("C05.1", 2)
+    # the handshake needs its lock, the reference protocol its TLS slot: entered with the pointers NULL, p_uthread_init leaves both
+    # assigned from their constructors on every path.  (p_spinlock_lock (NULL) and p_uthread_set_local (NULL, ...) fail silently:
+    # with the spinlock missing the new thread reads the handle while the creator is still filling it in.)
+    from plint.wiring import init_creates
+    made = dict((g, (ctor, okm, ln)) for (g, ctor, okm, ln) in init_creates(u.fn("p_uthread_init", raw=True)))
+    for g, want in ((SPIN, "p_spinlock_new"), ("pp_uthread_specific_data", "p_uthread_local_new")):
+        ctor, okm, ln = made.get(g, (None, False, u.fn("p_uthread_init").loc[0]))
+        okm = okm and ctor == want
+        rep.ob("C05.1", u.fn("p_uthread_init"), "init:" + g, okm, "p_uthread_init creates %s through %s whenever it does not exist yet" % (g, want) if okm else
+               "p_uthread_init can return with %s still NULL (or not made by %s): %s" % (g, want, "lock and unlock of the creation spinlock then fail silently and the start-up handshake is gone"
+                                                                                  if g == SPIN else "the running thread's own reference is never registered for release at thread exit"), ln)
+    rep.floor("C05.1", 2 + 2)
 
     # ---- C05.2 ---------------------------------------------------------------------
     st_cf = [(b, i, f, n) for (b, i, f, n) in stores_in(cf) if f == "ref_count"]
@@ -523,6 +534,8 @@ def run(prog, rep):
 RENAME_LOCALS = ['src/puthread.c', 'src/puthread-posix.c']
 
 SELFTEST = [
+    dict(id="creation-spinlock-never-created", file="src/puthread.c", expect="C05.1",
+         old="\tif (P_LIKELY (pp_uthread_new_spin == NULL))\n\t\tpp_uthread_new_spin = p_spinlock_new ();", new="\tif (P_LIKELY (pp_uthread_new_spin != NULL))\n\t\tpp_uthread_new_spin = p_spinlock_new ();"),
     dict(id="shutdown-keeps-handle-in-slot", file="src/puthread.c", expect="C05.2",
          old="\t\t\tp_uthread_unref (cur_thread);\n\t\t\tp_uthread_set_local (pp_uthread_specific_data, NULL);\n", new="\t\t\tp_uthread_unref (cur_thread);\n"),
     dict(id="ref-count-one-plus-late-ref", expect="C05.2", edits=[
